@@ -33,7 +33,7 @@ import (
 	"golang.org/x/tools/imports"
 )
 
-var specOnlyRe = regexp.MustCompile(`verif_(old|prev|calls|lastarg|lastargn|lastres|lastresn|nthres|forall|exists|fresh|allocated|base|ptr|resval|argval|same|haskey|le64|istype|fst|snd|fst3|snd3|thd3)\b`)
+var specOnlyRe = regexp.MustCompile(`verif_(old|prev|calls|snap|lastarg|lastargn|lastres|lastresn|nthres|forall|exists|fresh|allocated|base|ptr|resval|argval|same|haskey|le64|istype|fst|snd|fst3|snd3|thd3)\b`)
 
 func isScalarType(t types.Type) bool {
 	b, ok := t.Underlying().(*types.Basic)
